@@ -37,7 +37,7 @@ type Ctx struct {
 	Signers string `json:"signers"` // "ab", "ac", "abc"
 	Session string `json:"session"` // "nil", "1", "2"
 	Variant string `json:"variant"` // "frost", "taproot"
-	Share   int    `json:"share"`   // 0/1: which of the two independent key generations; 2: key 0 after a refresh (same public key and ids, new share)
+	Share   int    `json:"share"`   // 0/1: which of the two independent key generations; 2: key 0 after a refresh (same public key and ids, new share); 3: key 1 with the chain key absent
 }
 
 func (c Ctx) String() string {
@@ -53,7 +53,7 @@ func diff(a, b Ctx) []string {
 	if a.Session != b.Session {
 		d = append(d, "session")
 	}
-	if a.Share != b.Share {
+	if shareValue(a.Share) != shareValue(b.Share) {
 		d = append(d, "share")
 	}
 	if a.Signers != b.Signers {
@@ -64,6 +64,15 @@ func diff(a, b Ctx) []string {
 	}
 	sort.Strings(d)
 	return d
+}
+
+// shareValue: key material 3 holds the SAME secret share as key material 1 (only its chain key is absent),
+// so the two do not differ in any dimension the property names.
+func shareValue(sh int) int {
+	if sh == 3 {
+		return 1
+	}
+	return sh
 }
 
 func variantOf(a, b Ctx) string {
@@ -115,7 +124,7 @@ func grid(msgs []int) []Ctx {
 		for _, s := range []string{"ab", "ac", "abc"} {
 			for _, sid := range []string{"nil", "1", "2"} {
 				for _, v := range []string{"frost", "taproot"} {
-					for sh := 0; sh < 3; sh++ {
+					for sh := 0; sh < 4; sh++ {
 						out = append(out, Ctx{Msg: m, Signers: s, Session: sid, Variant: v, Share: sh})
 					}
 				}
@@ -167,8 +176,8 @@ func reader(mode string, seed int64, ctx string, attempt int) io.Reader {
 // ---- key material -------------------------------------------------------------------------------------
 
 type keys struct {
-	tap   [3]*frost.TaprootConfig // party a's material: two independent taproot key generations, and [2] = key 0 after a refresh (same public key, new share)
-	plain [3]*frost.Config        // the same sharings as plain FROST configs (what SignTaproot builds internally)
+	tap   [4]*frost.TaprootConfig // party a's material: two independent taproot key generations, and [2] = key 0 after a refresh (same public key, new share)
+	plain [4]*frost.Config        // the same sharings as plain FROST configs (what SignTaproot builds internally)
 }
 
 var allIDs = []party.ID{"a", "b", "c"}
@@ -214,6 +223,14 @@ func buildKeys(seed int64) (*keys, error) {
 	if bytes.Equal(s0, s1) {
 		return nil, fmt.Errorf("the two key generations gave party a the same share")
 	}
+	// [3] = key 1 WITHOUT a chain key (dealer-made or imported material: the decoders and Validate accept it);
+	// whatever the nonce derivation hashes must not be skipped because an optional value is absent
+	t3 := *k.tap[1]
+	t3.ChainKey = nil
+	k.tap[3] = &t3
+	p3 := *k.plain[1]
+	p3.ChainKey = nil
+	k.plain[3] = &p3
 	s2, _ := k.tap[2].PrivateShare.MarshalBinary()
 	if bytes.Equal(s0, s2) || !bytes.Equal(k.tap[0].PublicKey, k.tap[2].PublicKey) {
 		return nil, fmt.Errorf("the refreshed epoch of key 0 is not (same public key, new share)")
@@ -518,6 +535,9 @@ func main() {
 		}
 		for i := range ctxs {
 			for j := i + 1; j < len(ctxs); j++ {
+				if len(diff(ctxs[i], ctxs[j])) == 0 {
+					continue // the same context twice (key material 1 and its copy without a chain key)
+				}
 				pairs++
 				res.Case(fmt.Sprintf("pair|%s|%d|%d", mode, i, j))
 				if sig, det := judgeFrostPair(k, msgs, seed, mode, ctxs[i], ctxs[j], &com[i], &com[j]); sig != "" {
